@@ -1197,6 +1197,48 @@ func runC14(c *h.Ctx) {
 			}
 		}
 	}
+	// an array of length 0 that is a nil slice (a value built in Go, not decoded)
+	// is the empty array: every accessor answers as for []any{}
+	{
+		var nilArr []any
+		k := 0
+		for _, pt := range []string{`$[0]`, `$[last]`, `$[0 to last]`, `$[-1 to 3]`, `$[0,0]`, `strict $[0]`, `strict $[last]`, `$[*]`, `$.size()`, `$.a[0]`, `strict $.a[0 to 1]`, `$.a[last].type()`, `$x[0]`, `strict $x[last]`, `$[1][0]`, `$[*][0]`, `$ ? (exists(@[0]))`, `$.a ? (@.size() == 0)`, `$[0 to last].size()`} {
+			k++
+			if !c.Mine(k) {
+				continue
+			}
+			p := cachedPath(pt)
+			if p == nil {
+				continue
+			}
+			for di := 0; di < 3; di++ {
+				mk := func(arr []any) any {
+					switch di {
+					case 0:
+						return arr
+					case 1:
+						return map[string]any{"a": arr}
+					}
+					return []any{1.0, arr}
+				}
+				for _, silent := range []bool{false, true} {
+					for _, e := range []string{"query", "exists", "first"} {
+						on := h.Call(e, p, mk(nilArr), h.Opts{Silent: silent, Vars: map[string]any{"x": nilArr}})
+						oe := h.Call(e, p, mk([]any{}), h.Opts{Silent: silent, Vars: map[string]any{"x": []any{}}})
+						c.Eval(2)
+						if on.Class == h.Panic || oe.Class == h.Panic {
+							continue
+						}
+						if on.Summary() != oe.Summary() {
+							c.Violate("single", h.F("kind", "nil-slice", "entry", e), fmt.Sprintf("%s(%s) with the empty array given as a nil slice (%s): %s; given as []any{}: %s", e, pt, []string{"document", "member a", "element 1"}[di], on.Summary(), oe.Summary()), h.Case{Kind: "nil-slice", Path: pt, Entry: e, Silent: silent})
+						} else {
+							c.Held("single")
+						}
+					}
+				}
+			}
+		}
+	}
 	// random larger cases
 	r := c.Rand("c14")
 	nr := c.PerShard(c.N(1000000, 10000000))
